@@ -156,8 +156,18 @@ func (f *FuncCtx) specIdent(name string, env *Env) (Val, bool) {
 	if v, ok := env.names[name]; ok {
 		return v, true
 	}
+	if !sc.nolocals && sc.pos != token.NoPos {
+		// Go scoping first: the declaration visible at the clause's program point
+		if inner := f.Pkg.Types.Scope().Innermost(sc.pos); inner != nil {
+			if _, o := inner.LookupParent(name, sc.pos); o != nil {
+				if v, ok := env.vars[o]; ok {
+					return v, true
+				}
+			}
+		}
+	}
 	if !sc.nolocals {
-		// locals / params by name: innermost declaration visible at sc.pos
+		// fallback: a variable of that name declared earlier in the function (e.g. in an if-init whose scope has ended)
 		var best types.Object
 		for o := range env.vars {
 			if o.Name() != name {
